@@ -1,6 +1,6 @@
 (* C11 — ArrayList: the chunked model (after fixes/C11-1.patch) refines list T for every chunk size and history. *)
-From Coq Require Import List Arith Bool PeanoNat Lia.
-From DuneV Require Import C11_Model C11_Spec C11_Proofs.
+From Coq Require Import List Arith Bool PeanoNat Lia ZArith.
+From DuneV Require Import Params_gen C11_Model C11_Spec C11_Proofs.
 Import ListNotations.
 
 Arguments al_chunks {T} _.
@@ -9,7 +9,11 @@ Arguments al_size {T} _.
 Arguments al_start {T} _.
 
 Lemma c11_cs_pos N : 0 < c11_cs N.
-Proof. destruct N; simpl; lia. Qed.
+Proof.
+  unfold c11_cs. destruct (c11_param_al_chunk_threshold <? N) eqn:E.
+  - apply Nat.ltb_lt in E. lia.
+  - (* the fallback chunk size read from the source must be positive *) unfold c11_param_al_min_chunk. lia.
+Qed.
 
 Section ALP.
   Variable T : Type.
@@ -392,5 +396,92 @@ Section ALP.
     - exists dtr. split; auto. split.
       + clear -HF. induction HF; simpl; auto.
       + clear -HF. induction HF; constructor; auto.
+  Qed.
+  (* ------------------------------------------------------------ iterators: every random-access path reads the abstract list *)
+  Lemma c11_res_all_seq {A} (f : nat -> c11_res A) : forall (l : list A) k,
+    (forall i x, nth_error l i = Some x -> f (k + i) = C11_ok x) -> c11_res_all (map f (seq k (length l))) = C11_ok l.
+  Proof.
+    induction l as [| a l IH]; intros k H; simpl; auto.
+    rewrite <- (Nat.add_0_r k) at 1. rewrite (H 0 a eq_refl). simpl.
+    rewrite (IH (S k)). reflexivity. intros i x Hi. replace (S k + i) with (k + S i) by lia. apply H. exact Hi.
+  Qed.
+  Lemma c11_firstn_S_snoc {A} (L : list A) k x : nth_error L k = Some x -> firstn (S k) L = firstn k L ++ [x].
+  Proof. revert k; induction L as [| a L IH]; intros [| k] H; simpl in *; try discriminate. injection H as ->; auto. f_equal. apply IH; auto. Qed.
+
+  Lemma c11_ali_index_ok s l i j (n : Z) x : c11_al_inv s l ->
+    (Z.of_nat (al_start s + al_size s) < 2 ^ 64)%Z -> i <= al_size s -> Z.of_nat j = (Z.of_nat i + n)%Z -> nth_error l j = Some x ->
+    c11_ali_index T N s (al_start s + i) n = C11_ok x.
+  Proof.
+    intros (Hcap & Hle & Hsz & Hal & Hel) Hb Hi Hj Hx. unfold c11_ali_index.
+    assert (Hjl : j < length l) by (apply nth_error_Some; congruence).
+    rewrite Z.add_mod_idemp_l by lia.
+    replace (n + Z.of_nat (al_start s + i))%Z with (Z.of_nat (al_start s + j)) by lia.
+    rewrite Z.mod_small by lia. rewrite Nat2Z.id. apply Hel. exact Hx.
+  Qed.
+
+  Lemma c11_al_read_begin_ok s l : c11_al_inv s l -> (Z.of_nat (al_start s + al_size s) < 2 ^ 64)%Z -> c11_al_read_begin T N s = C11_ok l.
+  Proof.
+    intros Hinv Hb. pose proof Hinv as (_ & _ & Hsz & _). unfold c11_al_read_begin, c11_al_begin. rewrite Hsz.
+    apply (c11_res_all_seq (fun i => c11_ali_index T N s (al_start s) (Z.of_nat i)) l 0). intros i x Hx. simpl.
+    rewrite <- (Nat.add_0_r (al_start s)). eapply (c11_ali_index_ok s l 0 i); eauto; lia.
+  Qed.
+  Lemma c11_al_read_mid_ok s l : c11_al_inv s l -> (Z.of_nat (al_start s + al_size s) < 2 ^ 64)%Z -> c11_al_read_mid T N s = C11_ok l.
+  Proof.
+    intros Hinv Hb. pose proof Hinv as (_ & _ & Hsz & _). unfold c11_al_read_mid, c11_al_begin, c11_ali_advance. rewrite Hsz.
+    apply (c11_res_all_seq (fun i => c11_ali_index T N s (al_start s + length l / 2) (Z.of_nat i - Z.of_nat (length l / 2))) l 0). intros i x Hx. cbn beta. rewrite Nat.add_0_l.
+    assert (Hm : length l / 2 <= length l) by (apply Nat.div_le_upper_bound; lia).
+    set (m := length l / 2) in *. clearbody m.
+    eapply (c11_ali_index_ok s l m i); eauto; lia.
+  Qed.
+  Lemma c11_al_rev_walk_ok s l : c11_al_inv s l -> forall k j, k <= j -> j <= length l ->
+    c11_al_rev_walk T N s k (al_start s + j) = C11_ok (rev (firstn k (skipn (j - k) l))).
+  Proof.
+    intros (Hcap & Hle & Hsz & Hal & Hel). induction k as [| k IH]; intros j Hk Hj; [reflexivity |].
+    cbn [c11_al_rev_walk]. unfold c11_ali_decrement, c11_ali_dereference.
+    replace (al_start s + j - 1) with (al_start s + (j - 1)) by lia.
+    destruct (nth_error l (j - 1)) as [x |] eqn:Ex; [| apply nth_error_None in Ex; lia].
+    rewrite (Hel _ _ Ex). cbn [c11_bind]. rewrite IH by lia. cbn [c11_bind].
+    replace (j - 1 - k) with (j - S k) by lia.
+    rewrite (c11_firstn_S_snoc (skipn (j - S k) l) k x).
+    - rewrite rev_app_distr. reflexivity.
+    - rewrite c11_nth_error_skipn. replace (j - S k + k) with (j - 1) by lia. exact Ex.
+  Qed.
+  Lemma c11_al_read_reverse_ok s l : c11_al_inv s l -> c11_al_read_reverse T N s = C11_ok l.
+  Proof.
+    intros Hinv. pose proof Hinv as (_ & _ & Hsz & _). unfold c11_al_read_reverse, c11_al_end. rewrite Hsz.
+    rewrite (c11_al_rev_walk_ok s l Hinv (length l) (length l)) by lia. simpl.
+    rewrite Nat.sub_diag. simpl. rewrite rev_involutive, firstn_all. reflexivity.
+  Qed.
+
+  Theorem c11_arraylist_random_access_lemma : forall ops ws,
+    c11_spec_exec (c11_als_step T) ([], None) ops = Some ws ->
+    exists w, c11_exec (c11_al_step T d N true) (c11_al_empty T, None) ops = C11_ok w /\
+      let s := fst w in let l := fst ws in
+      al_size s = length l /\
+      ((Z.of_nat (c11_al_end T s) < 2 ^ 64)%Z -> c11_al_read_begin T N s = C11_ok l /\ c11_al_read_mid T N s = C11_ok l) /\
+      c11_al_read_reverse T N s = C11_ok l /\
+      c11_ali_distanceTo (c11_al_begin T s) (c11_al_end T s) = Z.of_nat (length l) /\
+      c11_ali_equals (c11_ali_advance (c11_al_begin T s) (al_size s)) (c11_al_end T s) = true /\
+      (* appending never invalidates ANY iterator into the list *)
+      (forall v, exists s', c11_al_push_back T d N s v = C11_ok s' /\ c11_al_begin T s' = c11_al_begin T s /\
+                 forall i x, nth_error l i = Some x -> c11_ali_dereference T N s' (c11_ali_advance (c11_al_begin T s) i) = C11_ok x) /\
+      (* eraseToHere leaves the iterator at the next unerased entry, i.e. at the new begin() *)
+      (forall k, k < length l -> snd (c11_al_eraseToHere T N s (c11_al_begin T s + k)) = c11_al_begin T (fst (c11_al_eraseToHere T N s (c11_al_begin T s + k)))).
+  Proof.
+    intros ops ws Hs.
+    destruct (c11_sim_exec _ _ _ _ _ c11_al_R c11_al_step_sim ops (c11_al_empty T, None) ([], None) ws) as (w & Hw & [Hinv Hh]); auto.
+    { split; simpl; auto. apply c11_al_inv_empty. }
+    exists w. split; auto. destruct w as [s h], ws as [l hs]. cbn [fst snd] in *.
+    pose proof Hinv as (Hcap & Hle & Hsz & Hal & Hel).
+    split; auto. split.
+    { intros Hb. unfold c11_al_end in Hb. split. apply c11_al_read_begin_ok; auto. apply c11_al_read_mid_ok; auto. }
+    split. apply c11_al_read_reverse_ok; auto.
+    split. unfold c11_ali_distanceTo, c11_al_begin, c11_al_end. lia.
+    split. unfold c11_ali_equals, c11_ali_advance, c11_al_begin, c11_al_end. apply Nat.eqb_refl.
+    split.
+    - intros v. destruct (c11_al_push_back_ok s l v Hinv) as (s' & Hp & Hinv' & Hst). exists s'. split; auto. split; auto.
+      intros i x Hx. unfold c11_ali_dereference, c11_ali_advance, c11_al_begin. rewrite <- Hst.
+      destruct Hinv' as (_ & _ & _ & _ & Hel'). apply Hel'. rewrite nth_error_app1; auto. apply nth_error_Some. congruence.
+    - intros k Hk. destruct (c11_al_erase_ok s l k Hinv Hk) as (_ & Hst & Hsnd). unfold c11_al_begin. rewrite Hsnd, Hst. reflexivity.
   Qed.
 End ALP.
